@@ -156,6 +156,10 @@ class ExecutionContext:
                         second = [second]
                     combined = first + second
                     result = [combined[i] for i in indices]
+                    # A single-component swizzle is a scalar, not a vector
+                    # with one element
+                    if instruction.Type.IsScalar():
+                        result = result[0]
                     localScope[ref] = result
                 case LinearIR.OpCode.STORE_ARRAY:
                     ref = instruction.Reference
